@@ -66,25 +66,43 @@ pub struct Script {
     /// bitmap PDU 0 is already decrypted inside the client's TLS layer when the receive thread starts: it rode in
     /// the TLS record of the last PDU that was read before the thread was launched (connection / activation)
     pub preloaded: bool,
+    /// the session runs over NLA (PROTOCOL_HYBRID) instead of TLS only
+    pub nla: bool,
+    /// the session-ending PDU shares the TLS record of the last bitmap PDU(s)
+    pub end_in_last_record: bool,
 }
 
 pub fn scripts() -> Vec<Script> {
     let mut v = vec![];
     for packing in [Packing::OnePerRecord, Packing::TwoThenOne, Packing::ThreeInOne, Packing::PduAcrossTwoRecords, Packing::RecordAcrossTwoSegments, Packing::OnePerRecordWithPauses, Packing::EmptyPdusInside] {
-        v.push(Script { packing, end: End::None, end_after: 3, preloaded: false });
+        v.push(Script { packing, end: End::None, end_after: 3, preloaded: false, nla: false, end_in_last_record: false });
         for end in [End::DisconnectUltimatum, End::CloseNotify, End::AbruptClose, End::UndecodableRdpKind, End::UndecodableIoKind, End::UndecodableEmptyFrame] {
             for end_after in 0..=3 {
-                v.push(Script { packing, end, end_after, preloaded: false });
+                v.push(Script { packing, end, end_after, preloaded: false, nla: false, end_in_last_record: false });
             }
         }
     }
     // a PDU left in the TLS layer by whoever read last before the thread was started
     for packing in [Packing::OnePerRecord, Packing::TwoThenOne, Packing::PduAcrossTwoRecords] {
-        v.push(Script { packing, end: End::None, end_after: 3, preloaded: true });
-        v.push(Script { packing, end: End::None, end_after: 1, preloaded: true });
+        v.push(Script { packing, end: End::None, end_after: 3, preloaded: true, nla: false, end_in_last_record: false });
+        v.push(Script { packing, end: End::None, end_after: 1, preloaded: true, nla: false, end_in_last_record: false });
         for end in [End::DisconnectUltimatum, End::AbruptClose, End::CloseNotify] {
-            v.push(Script { packing, end, end_after: 2, preloaded: true });
-            v.push(Script { packing, end, end_after: 1, preloaded: true });
+            v.push(Script { packing, end, end_after: 2, preloaded: true, nla: false, end_in_last_record: false });
+            v.push(Script { packing, end, end_after: 1, preloaded: true, nla: false, end_in_last_record: false });
+        }
+    }
+    // NLA sessions (the pending-data query goes through another protocol branch of the X.224 layer)
+    for packing in [Packing::OnePerRecord, Packing::TwoThenOne, Packing::ThreeInOne] {
+        v.push(Script { packing, end: End::None, end_after: 3, preloaded: false, nla: true, end_in_last_record: false });
+        v.push(Script { packing, end: End::DisconnectUltimatum, end_after: 2, preloaded: false, nla: true, end_in_last_record: false });
+        v.push(Script { packing, end: End::CloseNotify, end_after: 2, preloaded: false, nla: true, end_in_last_record: false });
+    }
+    // the PDU that ends the session rides in the record of the last bitmap PDU(s)
+    for packing in [Packing::OnePerRecord, Packing::TwoThenOne, Packing::ThreeInOne] {
+        for end in [End::DisconnectUltimatum, End::UndecodableRdpKind, End::UndecodableIoKind, End::UndecodableEmptyFrame] {
+            for end_after in [1usize, 2, 3] {
+                v.push(Script { packing, end, end_after, preloaded: false, nla: false, end_in_last_record: true });
+            }
         }
     }
     v
@@ -122,6 +140,8 @@ struct State {
     r_blocked: bool,
     r_blocked_in_read: bool,
     r_timed_out: bool,
+    /// reads answered with end-of-stream so far (a loop that keeps reading a closed stream never ends)
+    eof_reads: u32,
 }
 
 struct Ctx {
@@ -266,6 +286,14 @@ impl Read for SchedLink {
                     return Ok(n);
                 }
                 if st.closed || st.teardown {
+                    st.eof_reads += 1;
+                    if st.eof_reads > 256 {
+                        // the same end-of-stream answer 256 times in one execution: the reader loops on a dead stream
+                        // (no scheduling point in that loop: it would never return)
+                        violation(&mut st, "spins-reading-a-closed-stream", "a read loop keeps asking a stream that answered end-of-stream 256 times instead of failing: the thread never stops".to_string());
+                        drop(st);
+                        panic!("VERIF-SPIN: read loop on a closed stream");
+                    }
                     return Ok(0);
                 }
                 // about to block inside a read: legitimate only while a PDU is partly received
@@ -503,7 +531,20 @@ fn build_actions(script: &Script, peer: &mut TlsPeer, st: &mut State) -> Vec<Env
         pdus_done = 1;
         st.record_ends.push((0, 1));
     }
-    let pdus: Vec<Vec<u8>> = (first..script.end_after as u16).map(bitmap_pdu).collect();
+    let mut pdus: Vec<Vec<u8>> = (first..script.end_after as u16).map(bitmap_pdu).collect();
+    let end_plain: Option<Vec<u8>> = match script.end {
+        End::DisconnectUltimatum => Some(framing::tpkt(&framing::x224_dt(&mcs::disconnect_provider_ultimatum(3)))),
+        End::UndecodableRdpKind => Some(framing::tpkt(&framing::x224_dt(&[0x00, 0x00, 0x00]))),
+        End::UndecodableIoKind => Some(framing::tpkt(&framing::x224_dt(&[26 << 2]))),
+        End::UndecodableEmptyFrame => Some(vec![0x03, 0x00, 0x00, 0x04]),
+        _ => None,
+    };
+    let ride = script.end_in_last_record && end_plain.is_some() && !pdus.is_empty();
+    if ride {
+        // glue the session-ending PDU to the last bitmap PDU: they then always travel in the same record
+        let e = end_plain.clone().unwrap();
+        pdus.last_mut().unwrap().extend(e);
+    }
     let mut push_record = |plain: &[u8], completes: usize, split_segment: bool, actions: &mut Vec<EnvAction>, st: &mut State, raw_off: &mut usize, pdus_done: &mut usize| {
         let rec = peer.encrypt(plain);
         *raw_off += rec.len();
@@ -563,6 +604,10 @@ fn build_actions(script: &Script, peer: &mut TlsPeer, st: &mut State) -> Vec<Env
                 push_record(&p[cut..], 1, false, &mut actions, st, &mut raw_off, &mut pdus_done);
             }
         }
+    }
+    if ride {
+        st.end_offset = Some(raw_off);
+        return actions;
     }
     match script.end {
         End::None => {}
@@ -624,14 +669,16 @@ fn execution(script: Script) {
     let c = Rc::new(Ctx {
         lock: Mutex::new(()),
         cv: Condvar::new(),
-        st: RefCell::new(State { to_client: VecDeque::new(), delivered: 0, closed: false, record_ends: vec![], end_offset: None, events: vec![], selects_on_dead: 0, teardown: false, violations: vec![], env_pos: 0, gui_pos: 0, r_blocked: false, r_blocked_in_read: false, r_timed_out: false }),
+        st: RefCell::new(State { to_client: VecDeque::new(), delivered: 0, closed: false, record_ends: vec![], end_offset: None, events: vec![], selects_on_dead: 0, teardown: false, violations: vec![], env_pos: 0, gui_pos: 0, r_blocked: false, r_blocked_in_read: false, r_timed_out: false, eof_reads: 0 }),
         rx: RefCell::new(None),
         sync: RefCell::new(None),
     });
     CTX.with(|x| *x.borrow_mut() = Some(c.clone()));
     // ---- set-up: single task, reactive peer, real TLS + connection + activation
-    let cfg = ConnCfg { use_nla: false, ..Default::default() };
-    let mut p = ServerParams { selected: 1, ..Default::default() };
+    let cfg = ConnCfg { use_nla: script.nla, ..Default::default() };
+    let mut p = ServerParams { selected: if script.nla { 2 } else { 1 }, ..Default::default() };
+    p.acct_domain = cfg.client.domain.clone();
+    p.acct_password = cfg.client.password.clone();
     p.acct_user = cfg.client.user.clone();
     let peer = match TlsPeer::new(p, vec![], Cert::B) {
         Ok(p) => Rc::new(RefCell::new(p)),
@@ -823,7 +870,13 @@ pub fn explore(script: Script, bound: u32, replay: Option<Vec<usize>>) -> Explor
                 // this schedule and carry on with the next one
                 let p = vcheck::runner::take_panic().unwrap_or_else(|| "? :: panic".into());
                 let choices = sched.lock().unwrap().current_choices();
-                let sig = if p.contains("deadlock") { "deadlock".to_string() } else { format!("panic@{}", vcheck::runner::panic_sig(&p)) };
+                let sig = if p.contains("deadlock") {
+                    "deadlock".to_string()
+                } else if p.contains("VERIF-SPIN") {
+                    "spins-reading-a-closed-stream".to_string()
+                } else {
+                    format!("panic@{}", vcheck::runner::panic_sig(&p))
+                };
                 let mut v = viols.lock().unwrap();
                 let e = v.entry(sig).or_insert((choices, p, 0));
                 e.2 += 1;
